@@ -40,6 +40,13 @@ type lrCall struct {
 	exp  func() uint64 // optional: the same hash from the harness's model
 }
 
+// lrBig marks calls[from:] as calls on distinctly larger arguments than the rest of their group (period probes).
+func lrBig(calls []lrCall, from int) {
+	for i := from; i < len(calls); i++ {
+		calls[i].desc = "[big] " + calls[i].desc
+	}
+}
+
 func lrIters(w *mon.W) int { return w.Cfg.Pick(100000, 600000) }
 
 // lrNoise returns calls to the OTHER public functions of the packages a property lives in (results discarded): a long
@@ -120,6 +127,7 @@ func longRun(w *mon.W, calls []lrCall, inputsDigest func() uint64, noisePkg ...s
 	for _, g := range order {
 		ids := groups[g]
 		n := 0
+		quiet := false // no neighbouring calls during the period probes
 		check := func(i int) bool {
 			c := calls[i]
 			w.Op = "long run " + c.desc
@@ -132,7 +140,7 @@ func longRun(w *mon.W, calls []lrCall, inputsDigest func() uint64, noisePkg ...s
 			if n&1023 == 0 {
 				w.Tick()
 			}
-			if len(noise) > 0 && n&7 == 0 {
+			if len(noise) > 0 && n&7 == 0 && !quiet {
 				w.Op = "long run (a neighbouring function between two checked calls)"
 				noise[r.Intn(len(noise))]()
 			}
@@ -177,6 +185,53 @@ func longRun(w *mon.W, calls []lrCall, inputsDigest func() uint64, noisePkg ...s
 				}
 			}
 		}
+		// Period probes: a big call A, then exactly K small calls, then another big call B - for K around the periods of
+		// 8- and 16-bit counters. A generation stamp that wraps revives what A left in a recycled table precisely K+1 calls
+		// later, and only if nothing in between touched it (round 11: a uint8 generation whose wrap-around reset cleared
+		// only the part of the table the current call uses).
+		var bigs, smalls []int
+		for _, i := range ids {
+			if strings.HasPrefix(calls[i].desc, "[big] ") {
+				bigs = append(bigs, i)
+			} else {
+				smalls = append(smalls, i)
+			}
+		}
+		if len(bigs) >= 2 && len(smalls) > 0 {
+			quiet = true
+			ks := []int{253, 254, 255, 256, 257, 509, 510, 511, 65534, 65535, 65536}
+			if w.Cfg.Thorough() {
+				ks = append(ks, 127, 128, 252, 258, 512, 1023, 1024, 65533, 65537, 131071)
+			}
+			for _, k := range ks {
+				for rep := 0; rep < 3; rep++ {
+					a := bigs[r.Intn(len(bigs))]
+					b := bigs[r.Intn(len(bigs))]
+					if a == b {
+						b = bigs[(r.Intn(len(bigs)-1)+1+indexOf(bigs, a))%len(bigs)]
+					}
+					if !check(a) {
+						return false
+					}
+					s1 := smalls[r.Intn(len(smalls))]
+					for j := 0; j < k; j++ {
+						if j&15 == 0 {
+							s1 = smalls[r.Intn(len(smalls))]
+						}
+						if !check(s1) {
+							return false
+						}
+					}
+					if !check(b) || !check(a) {
+						return false
+					}
+					if k > 2000 {
+						break
+					}
+				}
+			}
+			w.Bucket("long-run/period-probes")
+		}
 		total += int64(n)
 		w.Bucket("long-run/" + g)
 	}
@@ -194,8 +249,11 @@ func longRun(w *mon.W, calls []lrCall, inputsDigest func() uint64, noisePkg ...s
 	return true
 }
 
+// The long run is Serial and comes right after the cold-start family: a free list or pool the library keeps has then
+// been filled by nobody else, sequential use gets the same entry back every time, and a per-entry generation counter
+// sees every call (behind 16 parallel workers the calls spread over as many entries as the pool holds).
 func lrFamily(run func(w *mon.W, idx int)) mon.Family {
-	return mon.Family{Name: "long-run", N: 1, NoCold: true, NoRepeat: true, Run: run}
+	return mon.Family{Name: "long-run", N: 1, Serial: true, Early: true, NoCold: true, NoRepeat: true, Run: run}
 }
 
 func h2(a, b int32) uint64 { return gen.Hash64(uint64(uint32(a)), uint64(uint32(b))) }
@@ -243,6 +301,7 @@ func c01LongRun(w *mon.W, _ int) {
 	bms := lrBitmaps(w.Rng)
 	var calls []lrCall
 	for bi, bm := range bms {
+		n0 := len(calls)
 		bm := bm
 		d := fmt.Sprintf("(bitmap #%d of %d words)", bi, len(bm))
 		if len(bm) > 210 {
@@ -275,6 +334,9 @@ func c01LongRun(w *mon.W, _ int) {
 				lrCall{"Rank64", fmt.Sprintf("Rank64(%d)%s", i, d), func() uint64 { return h2(bitmap.Rank64(bm, e64, int32(i))) }, func() uint64 { return h2(er, eb) }},
 				lrCall{"Rank128", fmt.Sprintf("Rank128(%d)%s", i, d), func() uint64 { return h2(bitmap.Rank128(bm, e128, int32(i))) }, func() uint64 { return h2(er, eb) }})
 		}
+		if len(bm) >= 70 {
+			lrBig(calls, n0)
+		}
 	}
 	longRun(w, calls, lrDigestW(bms), "bitmap")
 }
@@ -283,6 +345,7 @@ func c02LongRun(w *mon.W, _ int) {
 	bms := lrBitmaps(w.Rng)
 	var calls []lrCall
 	for bi, bm := range bms {
+		n0 := len(calls)
 		bm := bm
 		d := fmt.Sprintf("(bitmap #%d of %d words)", bi, len(bm))
 		if len(bm) > 210 {
@@ -317,6 +380,9 @@ func c02LongRun(w *mon.W, _ int) {
 				lrCall{"Select32", fmt.Sprintf("Select32(%d)%s", i, d), func() uint64 { return h2(bitmap.Select32(bm, sidx, int32(i))) }, func() uint64 { return h2(ea, eb) }},
 				lrCall{"Select32R64", fmt.Sprintf("Select32R64(%d)%s", i, d), func() uint64 { return h2(bitmap.Select32R64(bm, sidx, ridx, int32(i))) }, func() uint64 { return h2(ea, eb) }})
 		}
+		if len(bm) >= 70 {
+			lrBig(calls, n0)
+		}
 	}
 	longRun(w, calls, lrDigestW(bms), "bitmap")
 }
@@ -325,6 +391,7 @@ func c13LongRun(w *mon.W, _ int) {
 	bms := lrBitmaps(w.Rng)
 	var calls []lrCall
 	for bi, bm := range bms {
+		n0 := len(calls)
 		bm := bm
 		n := 64 * len(bm)
 		for q := 0; q < 6; q++ {
@@ -352,6 +419,9 @@ func c13LongRun(w *mon.W, _ int) {
 			if end >= 1 {
 				calls = append(calls, lrCall{"PrevOne", "PrevOne" + d, func() uint64 { return uint64(uint32(bitmap.PrevOne(bm, int32(i), int32(end)))) }, func() uint64 { return uint64(uint32(ep)) }})
 			}
+		}
+		if len(bm) >= 70 {
+			lrBig(calls, n0)
 		}
 	}
 	longRun(w, calls, lrDigestW(bms), "bitmap")
@@ -596,6 +666,7 @@ func c11LongRun(w *mon.W, _ int) {
 	lists = append(lists, long)
 	var calls []lrCall
 	for li, l := range lists {
+		n0 := len(calls)
 		l := l
 		for _, fh := range [][2]int{{0, 12}, {0, 16}, {8, 8}, {3, 5}, {0, 32}, {r.Intn(20), 1 + r.Intn(32)}} {
 			from, h := fh[0], fh[1]
@@ -613,6 +684,9 @@ func c11LongRun(w *mon.W, _ int) {
 					return gen.Hash64(uint64(uint32(a)), b)
 				}, nil})
 			}
+		}
+		if len(l) >= 64 {
+			lrBig(calls, n0)
 		}
 	}
 	longRun(w, calls, func() uint64 {
@@ -714,12 +788,15 @@ func c09LongRun(w *mon.W, _ int) {
 					from, to = to, from
 				}
 			}
+			// the caller KEEPS the slices New returned (they are the arguments of the Cmp / CmpUpto / Len calls below, for
+			// the whole run, while 100 000 further New calls are made); keep is a private copy for the expected values
 			e := enc{s, from, to, nil, c09Text(s, from, to)}
-			e.b = append([]byte{}, bitstr.New(s, int32(from), int32(to))...)
+			e.b = bitstr.New(s, int32(from), int32(to))
 			encs = append(encs, e)
-			keep := e.b
+			keep := append([]byte{}, e.b...)
+			held := e.b
 			calls = append(calls, lrCall{"New", fmt.Sprintf("New(%.50q, %d, %d)", s, from, to), func() uint64 { return gen.HashBytes(bitstr.New(s, int32(from), int32(to))) }, func() uint64 { return gen.HashBytes(keep) }},
-				lrCall{"Len", fmt.Sprintf("Len(New(%.50q, %d, %d))", s, from, to), func() uint64 { return uint64(bitstr.Len(keep)) }, func() uint64 { return uint64(len(e.text)) }})
+				lrCall{"Len", fmt.Sprintf("Len(New(%.50q, %d, %d))", s, from, to), func() uint64 { return gen.Hash64(uint64(bitstr.Len(held)), gen.HashBytes(held)) }, func() uint64 { return gen.Hash64(uint64(len(e.text)), gen.HashBytes(keep)) }})
 		}
 	}
 	for k := 0; k < 60; k++ {
@@ -763,46 +840,74 @@ func c16LongRun(w *mon.W, _ int) {
 	r := w.Rng
 	lists := lrKeyLists(r)
 	var calls []lrCall
-	for li, l := range lists {
-		l := l
+	fdOf := func(l []string) []int32 {
 		var fd []int32
 		for i := 0; i+1 < len(l); i++ {
 			fd = append(fd, int32(c16FirstDiff(l[i], l[i+1])))
 		}
+		return fd
+	}
+	// model: m0 = smallest first-difference bit in the range, counter i = number of distinct keys truncated to m0+i bits
+	query := func(group string, sb *sigbits.SigBits, li int, l []string, fd []int32, s, e, m int) lrCall {
+		m0 := int32(1 << 30)
+		for i := s; i < e-1; i++ {
+			if fd[i] < m0 {
+				m0 = fd[i]
+			}
+		}
+		ec := make([]int32, m)
+		for i := 0; i < m; i++ {
+			set := map[string]struct{}{}
+			for _, k := range l[s:e] {
+				set[c16Trunc(k, int(m0)+i)] = struct{}{}
+			}
+			ec[i] = int32(len(set))
+		}
+		return lrCall{group, fmt.Sprintf("SigBits(list #%d: %d keys).CountPrefixes(%d, %d, %d)", li, len(l), s, e, m), func() uint64 {
+			a, b := sb.CountPrefixes(int32(s), int32(e), int32(m))
+			return gen.Hash64(uint64(uint32(a)), hashI32(b))
+		}, func() uint64 { return gen.Hash64(uint64(uint32(m0)), hashI32(ec)) }}
+	}
+	for li, l := range lists {
+		l := l
+		n0 := len(calls)
+		fd := fdOf(l)
 		calls = append(calls, lrCall{"FirstDiffBits", fmt.Sprintf("FirstDiffBits(list #%d: %d keys)", li, len(l)), func() uint64 { return hashI32(sigbits.FirstDiffBits(l)) }, func() uint64 { return hashI32(append([]int32{}, fd...)) }})
+		if len(l) >= 65 {
+			lrBig(calls, n0)
+		}
 		if len(l) < 2 {
 			continue
 		}
-		sb := sigbits.New(l) // ONE long-lived object per list: its queries alternate between wide and narrow ranges
+		sb := sigbits.New(l) // one object per list
 		for q := 0; q < 8; q++ {
-			s, e := r.Intn(len(l)-1), 0
-			e = s + 2 + r.Intn(len(l)-s-1)
+			s := r.Intn(len(l) - 1)
+			e := s + 2 + r.Intn(len(l)-s-1)
 			if q < 2 {
 				s, e = 0, len(l)
 			}
 			if q >= 5 && s+3 <= len(l) {
 				e = s + 2 + r.Intn(2)
 			}
-			m := r.Pick(1, 2, 8, 16, 16, 20, 64)
-			// model: counter i = number of distinct keys truncated to m0+i bits
-			m0 := int32(1 << 30)
-			for i := s; i < e-1; i++ {
-				if fd[i] < m0 {
-					m0 = fd[i]
-				}
-			}
-			ec := make([]int32, m)
-			for i := 0; i < m; i++ {
-				set := map[string]struct{}{}
-				for _, k := range l[s:e] {
-					set[c16Trunc(k, int(m0)+i)] = struct{}{}
-				}
-				ec[i] = int32(len(set))
-			}
-			calls = append(calls, lrCall{"CountPrefixes", fmt.Sprintf("SigBits(list #%d: %d keys).CountPrefixes(%d, %d, %d)", li, len(l), s, e, m), func() uint64 {
-				a, b := sb.CountPrefixes(int32(s), int32(e), int32(m))
-				return gen.Hash64(uint64(uint32(a)), hashI32(b))
-			}, func() uint64 { return gen.Hash64(uint64(uint32(m0)), hashI32(ec)) }})
+			calls = append(calls, query("CountPrefixes", sb, li, l, fd, s, e, r.Pick(1, 2, 8, 16, 16, 20, 64)))
+		}
+	}
+	// ONE long-lived object that serves a whole group of queries: a few wide ones (the big calls of the period probes)
+	// and many narrow ones that read counters they do not write
+	{
+		l := gen.SortedUnique(gen.KeyZoo(r, 300, 9))
+		lists = append(lists, l)
+		fd := fdOf(l)
+		sb := sigbits.New(l)
+		n := len(l)
+		n0 := len(calls)
+		for _, q := range [][3]int{{0, n, 16}, {0, n, 64}, {0, n / 2, 20}, {n / 3, n, 12}} {
+			calls = append(calls, query("CountPrefixes(one long-lived SigBits)", sb, len(lists)-1, l, fd, q[0], q[1], q[2]))
+		}
+		lrBig(calls, n0)
+		for q := 0; q < 14; q++ {
+			s := r.Intn(n - 3)
+			calls = append(calls, query("CountPrefixes(one long-lived SigBits)", sb, len(lists)-1, l, fd, s, s+2+r.Intn(2), r.Pick(16, 16, 20, 64, 8, 1)))
 		}
 	}
 	longRun(w, calls, func() uint64 {
@@ -820,6 +925,7 @@ func c17LongRun(w *mon.W, _ int) {
 	// every (list, maxSize) is first verified clause by clause by the ordinary checker
 	var calls []lrCall
 	for li, l := range lists {
+		n0 := len(calls)
 		l := l
 		for _, ms := range []int{1, 2, 3, 5, 8, 20, 64, 100, len(l), len(l) + 1} {
 			ms := ms
@@ -830,6 +936,9 @@ func c17LongRun(w *mon.W, _ int) {
 				a, b := sigbits.ShardByPrefix(l, int32(ms))
 				return gen.Hash64(hashI32(a), hashI32(b))
 			}, nil})
+		}
+		if len(l) >= 65 {
+			lrBig(calls, n0)
 		}
 	}
 	longRun(w, calls, func() uint64 {
@@ -958,4 +1067,13 @@ func c06LongRun(w *mon.W, _ int) {
 		}
 		return h
 	})
+}
+
+func indexOf(l []int, x int) int {
+	for i, v := range l {
+		if v == x {
+			return i
+		}
+	}
+	return 0
 }
